@@ -9,6 +9,7 @@ import (
 	"os"
 	"sort"
 	"strings"
+	"time"
 
 	"github.com/openconfig/gnmi/ctree"
 	"github.com/openconfig/gnmi/zz_verif/vh"
@@ -103,7 +104,11 @@ func apply(t *ctree.Tree, o Op) (res Obs) {
 	}
 	switch o.K {
 	case "add":
-		err := t.Add(o.P, o.V)
+		p := cp(o.P)
+		err := t.Add(p, o.V)
+		for i := range p { // the tree must not depend on the caller's slice afterwards
+			p[i] = "scribbled"
+		}
 		return Obs{Kind: "add", OK: err == nil}
 	case "get":
 		n := t.Get(o.P)
@@ -151,6 +156,11 @@ func apply(t *ctree.Tree, o Op) (res Obs) {
 		for i, p := range ps {
 			out[i] = cp(p)
 		}
+		for _, p := range ps {
+			for i := range p {
+				p[i] = "scribbled"
+			}
+		}
 		return Obs{Kind: "paths", Paths: out}
 	case "walkdeleted":
 		var vs []int64
@@ -172,9 +182,25 @@ func apply(t *ctree.Tree, o Op) (res Obs) {
 			ns = append(ns, k)
 		}
 		sort.Strings(ns)
+		for k := range m { // the returned map must be a copy: scribbling it must not change the tree
+			delete(m, k)
+		}
+		m["scribbled"] = nil
 		return Obs{Kind: "names", HasNm: true, Names: ns}
 	case "isbranch":
 		return Obs{Kind: "bool", B: t.Get(o.P).IsBranch()}
+	case "queryerr":
+		// the visitor fails at its first call: Query must hand the error back
+		// (and, C10, must not keep a lock: the operations that follow still run)
+		calls := 0
+		err := t.Query(o.P, func([]string, *ctree.Leaf, interface{}) error {
+			calls++
+			return fmt.Errorf("visitor refused")
+		})
+		if calls > 1 {
+			panic("visitor called again after it returned an error")
+		}
+		return Obs{Kind: "bool", B: err != nil}
 	}
 	panic("unknown op " + o.K)
 }
@@ -182,10 +208,26 @@ func apply(t *ctree.Tree, o Op) (res Obs) {
 func run(ops []Op) []Obs {
 	t := &ctree.Tree{}
 	out := make([]Obs, len(ops))
-	for i, o := range ops {
-		out[i] = apply(t, o)
+	for i := range out {
+		out[i] = Obs{Kind: "panic", Msg: "hang: the operation sequence did not return within the watchdog"}
 	}
-	return out
+	done := make(chan struct{})
+	go func() {
+		defer close(done)
+		for i, o := range ops {
+			out2 := apply(t, o)
+			out[i] = out2
+		}
+	}()
+	select {
+	case <-done:
+		return out
+	case <-time.After(5 * time.Second):
+		// a single goroutine can only hang on a lock the tree failed to release
+		snap := make([]Obs, len(out))
+		copy(snap, out)
+		return snap
+	}
 }
 
 // ---------------------------------------------------------------------------
@@ -225,6 +267,8 @@ func opTerm(n *vh.Names, o Op) string {
 		return "OChildren " + n.Path(o.P)
 	case "isbranch":
 		return "OIsBranch " + n.Path(o.P)
+	case "queryerr":
+		return "OQueryErr " + n.Path(o.P)
 	}
 	panic("opTerm")
 }
@@ -380,6 +424,70 @@ func orderCase(r *vh.Rand) []Op {
 	return ops
 }
 
+var deepNames = []string{"a", "b", "", "*"}
+
+func deepPath(r *vh.Rand, n int, glob bool) []string {
+	p := make([]string, n)
+	for i := range p {
+		k := r.Pick(6, 4, 1, 1)
+		if k == 3 && !glob {
+			k = 0
+		}
+		p[i] = deepNames[k]
+	}
+	return p
+}
+
+func deepCase(r *vh.Rand) []Op {
+	var ops []Op
+	var stored [][]string
+	depth := 5 + r.Intn(20)
+	base := deepPath(r, depth-1, false)
+	n := 3 + r.Intn(6)
+	for i := 0; i < n; i++ {
+		var p []string
+		switch r.Pick(3, 2, 1) {
+		case 0: // sibling leaf under the same deep parent
+			p = append(cp(base), deepNames[r.Intn(3)]+fmt.Sprint(i%3))
+		case 1: // branch off somewhere above
+			cut := 1 + r.Intn(len(base))
+			p = append(cp(base[:cut]), deepPath(r, 1+r.Intn(4), false)...)
+		default:
+			p = deepPath(r, 1+r.Intn(depth), false)
+		}
+		ops = append(ops, Op{K: "add", P: p, V: int64(r.Intn(6))})
+		stored = append(stored, p)
+	}
+	ops = append(ops, Op{K: "walksorted"})
+	for i := 0; i < 2+r.Intn(3); i++ {
+		q := cp(stored[r.Intn(len(stored))])
+		switch r.Pick(2, 2, 2, 1) {
+		case 0:
+			q = q[:r.Intn(len(q)+1)]
+		case 1:
+			q[r.Intn(len(q))] = "*"
+		case 2:
+			q = append(q[:r.Intn(len(q)+1)], "*")
+		}
+		switch r.Pick(3, 3, 1, 1, 1) {
+		case 0:
+			ops = append(ops, Op{K: "query", P: q})
+		case 1:
+			o := Op{K: "delete", P: q}
+			randCond(r, &o)
+			ops = append(ops, o)
+		case 2:
+			ops = append(ops, Op{K: "queryerr", P: q})
+		case 3:
+			ops = append(ops, Op{K: "children", P: q[:r.Intn(len(q)+1)]})
+		default:
+			ops = append(ops, Op{K: "getleafvalue", P: q})
+		}
+	}
+	ops = append(ops, Op{K: "walksorted"}, Op{K: "walk"})
+	return ops
+}
+
 func randCond(r *vh.Rand, o *Op) {
 	switch r.Pick(3, 1, 1) {
 	case 1:
@@ -415,7 +523,7 @@ func randCase(r *vh.Rand, maxOps int) []Op {
 		return randPath(r, 4, 3)
 	}
 	for i := 0; i < n; i++ {
-		switch r.Pick(30, 4, 4, 4, 12, 3, 3, 14, 6, 4, 4) {
+		switch r.Pick(30, 4, 4, 4, 12, 3, 3, 14, 6, 4, 4, 3) {
 		case 0:
 			var p []string
 			if r.Chance(1, 4) {
@@ -452,6 +560,8 @@ func randCase(r *vh.Rand, maxOps int) []Op {
 			ops = append(ops, Op{K: "children", P: pick()})
 		case 10:
 			ops = append(ops, Op{K: "isbranch", P: pick()})
+		case 11:
+			ops = append(ops, Op{K: "queryerr", P: pick()})
 		}
 	}
 	ops = append(ops, Op{K: "walksorted"})
@@ -485,8 +595,20 @@ type emitter struct {
 	limit int
 }
 
+// hangs counts operation sequences that hit the watchdog; after a few of them the
+// verdict is settled and the remaining generated cases are skipped (corpus and
+// replay cases always run).
+var hangs int
+
 func (e *emitter) add(family string, ops []Op) {
+	if hangs >= 3 && family != "corpus" && family != "replay" {
+		e.meta.Hist("skipped-after-hangs")
+		return
+	}
 	c := Case{Family: family, Ops: ops, Obs: run(ops)}
+	if n := len(c.Obs); n > 0 && c.Obs[n-1].Kind == "panic" && strings.HasPrefix(c.Obs[n-1].Msg, "hang:") {
+		hangs++
+	}
 	e.cf.Add(caseTerm(e.cf.Names, c), c)
 	for i, o := range c.Ops {
 		e.meta.Hist("op:" + o.K)
@@ -619,6 +741,15 @@ func main() {
 	}
 	for i := 0; i < nord; i++ {
 		e.add("order", orderCase(r.Fork()))
+	}
+	// deep trees: paths of 5..24 elements over very few names (siblings at every depth,
+	// lengths around the capacities append grows through), the empty string as a name
+	ndeep := 300
+	if o.Thorough() {
+		ndeep = 4000
+	}
+	for i := 0; i < ndeep; i++ {
+		e.add("deep", deepCase(r.Fork()))
 	}
 	e.flush()
 	meta.Exhaustive = false
